@@ -27,8 +27,12 @@ def build_lock():
 
 
 def sh(cmd, cwd=None, env=None, timeout=3600, inp=None):
-    p = subprocess.run(cmd, cwd=cwd, env=env, stdout=subprocess.PIPE, stderr=subprocess.STDOUT,
-                       timeout=timeout, input=inp, shell=isinstance(cmd, str))
+    try:
+        p = subprocess.run(cmd, cwd=cwd, env=env, stdout=subprocess.PIPE, stderr=subprocess.STDOUT,
+                           timeout=timeout, input=inp, shell=isinstance(cmd, str))
+    except subprocess.TimeoutExpired as e:
+        out = (e.stdout or b"").decode("utf-8", "replace") if isinstance(e.stdout, (bytes, bytearray)) else ""
+        return -9, out + "\n[timed out after %s s]" % timeout
     return p.returncode, p.stdout.decode("utf-8", "replace")
 
 
